@@ -19,6 +19,8 @@ package announce
 //@ func (*Receiver).Close
 //@   property C16
 //@   requires recvOK(r) && !held(r.announceMutex)
+//@   modifies r.closed, closedflag(r.done)
+//@   ensures recvOK(r) && r.closed
 //@   requires r.cancelWatch != nil ==> r.watchDone != nil
 //@   requires r.cancelPubsub != nil ==> r.topic != nil
 //@   mayblock recv:watchDone
